@@ -129,6 +129,44 @@ def run(tier, replay):
             ls = open(tf).read().splitlines()
             ck.violation("tracebb:rejected", "TraceBB rejects a recorded sampler execution at line %d: %s" % (fl[0], ls[fl[0] - 1] if fl[0] - 1 < len(ls) else "?"),
                          {"file": tf, "line": fl[0]})
+    # ---- 4. the momentum-direction-lock operation: every case of TLC's graph of MDL.tla (species sequences of length 0..4 x filter x
+    #      rank -1..3 x error flag x cone x entry point; a rank equal to / beyond the number of particles is among them), each applied to a
+    #      brand-new event object in the ASan build with libstdc++'s container annotations (an access past size() is reported even
+    #      when the vector has spare capacity)
+    import c10
+    dump = os.path.join(wd, "mdl")
+    rm = vlib.tlc("MCMDL", "MCMDL.cfg", dump=dump, workers=8, timeout=600)
+    if rm.error:
+        raise vlib.InfraError(rm.error)
+    ck.tlc_stats(rm, "MCMDL (case graph)")
+    mcases, _applied = c10.load_cases(dump + ".dot")
+    os.remove(dump + ".dot")
+    chosen = [mcases[k] for k in sorted(mcases)]
+    rng.shuffle(chosen)
+    cpath = os.path.join(wd, "mdl_cases.txt")
+    with open(cpath, "w") as f:
+        for c_ in chosen:
+            f.write(c10.case_line(c_) + "\n")
+    mexe = vlib.compile_harness("mdl_replay", ["harness/mdl_replay.cc"], "asan")
+    nm = 8
+    mbudget = 400 if thorough else 45
+    done = 0
+    with cf.ThreadPoolExecutor(max_workers=nm) as ex:
+        futs = [ex.submit(c10.run_harness, mexe, ["--cases", cpath, "--variants", "2" if thorough else "1", "--edge-mod", "4", "--shard", str(i), str(nm),
+                                                "--seed", str(ck.seed + 3), "--budget", str(mbudget)], vlib.harness_env("asan"), mbudget + 200)
+                for i in range(nm)]
+        for i, f_ in enumerate(futs):
+            rr_ = f_.result()
+            if rr_.get("crash"):
+                if rr_["rc"] in (124, 3):
+                    raise vlib.InfraError("mdl_replay(asan) shard %d failed (rc=%s): %s" % (i, rr_["rc"], rr_["out"][-800:]))
+                ck.violation("mdl:" + report_key(rr_["out"]), "sanitizer report / crash while applying the momentum-direction-lock operation (rc=%s): %s"
+                             % (rr_["rc"], rr_["out"][-1800:]), {"mode": "mdl", "shard": i})
+            else:
+                done += rr_.get("cases_done", 0)
+    ck.set("mdl_cases_in_model", len(chosen))
+    ck.set("mdl_cases_under_sanitizers", done)
+    ck.add("evaluations", done)
     ck.set("traces_validated_against_impl", ck.cov.get("evaluations", 0))
     ck.set("distinct_nontrivial", ck.cov.get("evaluations", 0))
     ck.set("exhaustive", False)
@@ -139,5 +177,6 @@ def run(tier, replay):
     ck.sample({"generation_job": jobs[0][:140]})
     ck.sample("Create(g1,Co60) ; Shoot(g1,e1,s1) ; EventPrefill(e1) ; Shoot(g1,e1,s2)")
     ck.assumptions += ["ASan+UBSan (clang 14) and pattern-initialised automatic variables are the oracle; reads of uninitialised heap are not detected (no MSan)",
-                       "the reader, MDL, gA, driver and Geant4-action replays run under the same sanitizers inside C11, C10, C14, C15 and C17"]
+                       "the reader, gA, driver and Geant4-action replays run under the same sanitizers inside C11, C14, C15 and C17",
+                       "ASan build with -D_GLIBCXX_SANITIZE_VECTOR (library and harnesses): accesses beyond a vector's size() are reported"]
     return ck.finish()
